@@ -2,7 +2,7 @@
 """next_seed_prompt.py <ID>... : write /tmp/seedprompts/<ID>_<N>.txt for the next round from the previous prompt of that
 property plus the summary of the last recorded seed (so the new seeder is told which mechanisms are taken). Prints the paths."""
 import sys, os, re, json, glob
-PD = '/tmp/seedprompts'
+PD = "/tmp/seedprompts"  # working copies; the last prompt of every property is kept under tools/seedprompts/latest (copy them to /tmp/seedprompts to continue)
 for ID in sys.argv[1:]:
     ns = [int(re.search(r'_(\d+)\.txt$', p).group(1)) for p in glob.glob(f'{PD}/{ID}_*.txt')]
     ns += [int(d.split('-')[1]) for d in os.listdir('/verif/seeded') if d.startswith(ID + '-')]
